@@ -18,6 +18,10 @@ type Analysis struct {
 	Mode     int             // inlining view: 0 none, 1 helpers not in the baseline, 2 every same-package function
 	Baseline map[string]bool // function names the rules were written against
 	recMemo  map[*ssa.Function]bool
+	// DistinctParams: while summarising this function, stores through one pointer parameter do not invalidate what
+	// is known about the same field of another pointer parameter (set only after every call site has been shown to
+	// pass distinct objects)
+	DistinctParams map[*ssa.Function]bool
 }
 
 // isRecursive: f can reach itself through static calls.
